@@ -6,6 +6,7 @@ package stalllib
 
 import (
 	"context"
+	"fmt"
 	"sync"
 	"testing/synctest"
 	"time"
@@ -212,5 +213,104 @@ func SlowInit(op string) Result {
 	e.mu.Lock()
 	out := Result{Calls: append([]Call(nil), r.Calls...)}
 	e.mu.Unlock()
+	return out
+}
+
+// lateSync: Synchronize fails only when released (after its context is over); HandleMessage reports
+// that it was reached.
+type lateSync struct {
+	bcast   func([]byte)
+	release chan struct{}
+	reached chan struct{}
+}
+
+func (l *lateSync) Synchronize(ctx context.Context, _ func([]uint16), _ []byte, _ int, _ time.Duration) error {
+	if l.bcast != nil {
+		l.bcast([]byte("probe"))
+	}
+	<-ctx.Done()
+	if l.release != nil {
+		<-l.release
+	}
+	return ctx.Err()
+}
+
+func (l *lateSync) HandleMessage(uint16, []byte) {
+	select {
+	case l.reached <- struct{}{}:
+	default:
+	}
+}
+
+// LateSyncFailure: a Sign on topic "a" times out; the goroutine that ran its synchronisation learns
+// of the failure only later. Meanwhile the caller retries on the same topic (the retry waits in its
+// own synchronisation). After the old goroutine has finished, the retry must still be registered:
+// a synchronisation message for the topic reaches it (Reached), and a third, concurrent Sign on the
+// topic is refused at once (ThirdRefused).
+type LateResult struct {
+	First, Third Call
+	Reached      bool
+	Notes        []string
+}
+
+func LateSyncFailure() LateResult {
+	var r LateResult
+	e := newEnv()
+	e.p.SetStoredData([]byte("x"))
+	release1 := make(chan struct{})
+	reached2 := make(chan struct{}, 1)
+	n := 0
+	e.scm.SyncFactory = func(_ []uint16, bcast func([]byte), _ func([]byte, uint16)) tss.Synchronizer {
+		n++
+		switch n {
+		case 1:
+			return &lateSync{bcast: bcast, release: release1, reached: make(chan struct{}, 1)}
+		default:
+			return &lateSync{reached: reached2}
+		}
+	}
+	var second Call
+	e.call("sign", "a", &r.First)
+	synctest.Wait()
+	e.mu.Lock()
+	var topic []byte
+	if len(e.topics) > 0 {
+		topic = e.topics[0]
+	}
+	e.mu.Unlock()
+	time.Sleep(Deadline + 500*time.Millisecond) // the first call has timed out and returned
+	go func() {
+		ctx, cancel := context.WithTimeout(context.Background(), time.Minute)
+		defer cancel()
+		_, err := e.p.Sign(ctx, world.Sha([]byte("d")), "a")
+		e.mu.Lock()
+		second = Call{Returned: true, Err: err, At: time.Since(e.start)}
+		e.mu.Unlock()
+	}()
+	synctest.Wait()
+	close(release1) // now the old synchronisation goroutine reports its failure
+	synctest.Wait()
+	time.Sleep(100 * time.Millisecond)
+	if topic == nil {
+		r.Notes = append(r.Notes, "the first synchronisation sent nothing: scenario not applicable")
+		r.Reached = true
+	} else {
+		e.p.HandleMessage(&tss.IncMessage{Data: []byte("sync"), Source: 2, MsgType: uint8(tss.MsgTypeSync), Topic: topic})
+		synctest.Wait()
+		select {
+		case <-reached2:
+			r.Reached = true
+		default:
+		}
+	}
+	e.call("sign", "a", &r.Third)
+	time.Sleep(2 * time.Second)
+	e.mu.Lock()
+	out := LateResult{First: r.First, Third: r.Third, Reached: r.Reached, Notes: r.Notes}
+	if second.Returned {
+		out.Notes = append(out.Notes, fmt.Sprintf("the retry returned early: %v", second.Err))
+	}
+	e.mu.Unlock()
+	time.Sleep(2 * time.Minute)
 	return out
 }
